@@ -9,13 +9,17 @@ import (
 	"github.com/ipld/go-ipld-prime/datamodel"
 	nd "github.com/ipld/go-ipld-prime/internal/verifnd"
 	"github.com/ipld/go-ipld-prime/node/basicnode"
+	"github.com/ipld/go-ipld-prime/node/bindnode"
+	"github.com/ipld/go-ipld-prime/schema"
 	"github.com/ipld/go-ipld-prime/traversal"
 	"github.com/ipld/go-ipld-prime/traversal/selector"
 	"github.com/ipld/go-ipld-prime/zzverif/ref/gen"
 	"github.com/ipld/go-ipld-prime/zzverif/ref/nodecheck"
+	"github.com/ipld/go-ipld-prime/zzverif/ref/refschema"
 	"github.com/ipld/go-ipld-prime/zzverif/ref/refsel"
 	"github.com/ipld/go-ipld-prime/zzverif/ref/refval"
 	"github.com/ipld/go-ipld-prime/zzverif/ref/selgen"
+	"github.com/ipld/go-ipld-prime/zzverif/schemas"
 )
 
 var shapes = []string{"{1t1s1}", "[b1[s1]{ct}]", "b2", "s2", "[i]", "{c[ts1]c{cnct}}", "[]", "{}"}
@@ -138,6 +142,122 @@ func HHistory() {
 	again := refval.Of(n)
 	nd.Assert(refval.Equal(again, snap), "every read of the node returns what the first read returned")
 	nodecheck.Check(n, v, nodecheck.Opts{Probe: nd.String("probe2", 1), ProbeIx: nd.Int64("ix2"), Deep: true, Label: "after: "})
+	nd.Reach("end")
+}
+
+// HStaleAssemblers: assemblers handed out while a list or map was being built are used again
+// after Finish and Build (a caller error the library answers with a panic or an error): the
+// finished node does not change.
+func HStaleAssemblers() {
+	var np datamodel.NodePrototype = basicnode.Prototype.Any
+	listKind := nd.Choose("kind", 2) == 0
+	if nd.Choose("proto", 2) == 1 {
+		if listKind {
+			np = basicnode.Prototype.List
+		} else {
+			np = basicnode.Prototype.Map
+		}
+	}
+	nb := np.NewBuilder()
+	var v *refval.V
+	var stale []datamodel.NodeAssembler
+	var la datamodel.ListAssembler
+	var ma datamodel.MapAssembler
+	x, y := nd.Int64("x"), nd.Int64("y")
+	if listKind {
+		la, _ = nb.BeginList(2)
+		va := la.AssembleValue()
+		va.AssignInt(x)
+		vb := la.AssembleValue()
+		vb.AssignInt(y)
+		stale = []datamodel.NodeAssembler{va, vb}
+		nd.Assert(la.Finish() == nil, "Finish")
+		v = refval.MkList(refval.MkInt(x), refval.MkInt(y))
+	} else {
+		ma, _ = nb.BeginMap(2)
+		va, _ := ma.AssembleEntry("a")
+		va.AssignInt(x)
+		ka := ma.AssembleKey()
+		ka.AssignString("b")
+		vb := ma.AssembleValue()
+		vb.AssignInt(y)
+		stale = []datamodel.NodeAssembler{va, ka, vb}
+		nd.Assert(ma.Finish() == nil, "Finish")
+		v = refval.MkMap([]string{"a", "b"}, []*refval.V{refval.MkInt(x), refval.MkInt(y)})
+	}
+	n := nb.Build()
+	nd.Assert(refval.Equal(refval.Of(n), v), "first read is the value built")
+	which := nd.Choose("stale", len(stale)+1)
+	nd.Panics(func() {
+		if which < len(stale) {
+			switch nd.Choose("call", 3) {
+			case 0:
+				stale[which].AssignInt(nd.Int64("z"))
+			case 1:
+				stale[which].AssignNode(basicnode.NewString("zz"))
+			case 2:
+				if l2, err := stale[which].BeginList(1); err == nil {
+					l2.AssembleValue().AssignInt(1)
+					l2.Finish()
+				}
+			}
+		} else if listKind {
+			la.AssembleValue().AssignInt(nd.Int64("z"))
+			la.Finish()
+		} else {
+			if va, err := ma.AssembleEntry("c"); err == nil {
+				va.AssignInt(nd.Int64("z"))
+			}
+			ma.Finish()
+		}
+	})
+	nd.Assert(refval.Equal(refval.Of(n), v), "the finished node reads the same after stale assemblers were called")
+	nd.Assert(n.Length() == 2, "and has the length it was built with")
+	nd.Reach("end")
+}
+
+// HTypedHistory: the same for reflection-bound nodes: a finished typed map or list is assigned
+// into other builders of its prototype, which are then extended or reused.
+func HTypedHistory() {
+	ts := schemas.TypeSystem()
+	isMap := nd.Choose("kind", 2) == 0
+	var proto schema.TypedPrototype
+	var v *refval.V
+	if isMap {
+		proto = bindnode.Prototype((*schemas.MapSI)(nil), ts.TypeByName("MapSI"))
+		v = refval.MkMap([]string{"a", "b"}, []*refval.V{refval.MkInt(nd.Int64("x")), refval.MkInt(nd.Int64("y"))})
+	} else {
+		proto = bindnode.Prototype((*schemas.ListS)(nil), ts.TypeByName("ListS"))
+		v = refval.MkList(refval.MkString(nd.String("x", 1)), refval.MkString(nd.String("y", 1)), refval.MkString(nd.String("w", 1)))
+	}
+	nb := proto.NewBuilder()
+	nd.Assert(refschema.Assign(nb, v) == nil, "build")
+	n := nb.Build()
+	for round := 0; round < 2; round++ {
+		nb2 := proto.NewBuilder()
+		nd.Assert(nb2.AssignNode(n) == nil, "AssignNode of a finished typed node into a builder of its prototype")
+		nd.Panics(func() {
+			// the builder goes on (bindnode builders continue on the value they hold)
+			if isMap {
+				if ma, err := nb2.BeginMap(1); err == nil {
+					if va, err := ma.AssembleEntry("c"); err == nil {
+						va.AssignInt(nd.Int64("z"))
+					}
+					ma.Finish()
+				}
+			} else {
+				if la, err := nb2.BeginList(1); err == nil {
+					la.AssembleValue().AssignString(nd.String("z", 1))
+					la.Finish()
+				}
+			}
+			nb2.Build()
+		})
+	}
+	nd.Assert(refval.Equal(refval.Of(n), v), "the finished typed node reads the same after copies of it were extended")
+	nd.Assert(n.Length() == int64(len(v.L)), "and has the length it was built with")
+	// through every lookup form too (the key the copies added is not in the original)
+	nodecheck.Check(n, v, nodecheck.Opts{Probe: "c", ProbeIx: 3, Typed: true, Label: "after: "})
 	nd.Reach("end")
 }
 
